@@ -40,7 +40,14 @@ def value_sets(field, default, idx):
             d[src] = default
             out.append(d)
     out.append(dict(env=mk(1), file=mk(1), cli=mk(2)))      # two sources agreeing
+    if k == "int":
+        # the ends of the range a port number can take (and 0), from each source in turn
+        out.append(dict(env=65535, file=65534, cli=1))
+        out.append(dict(env=1, file=65535, cli=65534))
+        out.append(dict(env=2, file=3, cli=65535))
+        out.append(dict(env=0, file=65535, cli=0))
     if k == "string" and field["yaml"] != "cpu-cap":
+        out.append(dict(env="/e/dc=ams/x=%d" % idx, file="/f/k=v-%d" % idx, cli="/c/a=b=c-%d" % idx))
         # values are taken literally from every source: '$' names, '%', '#', ':' and spaces mean nothing
         out.append(dict(env="/e/$HOME/%%d-%d" % idx, file="/f/ipfix$tpl.${USER}#x: y-%d" % idx, cli="/c/$1 ${PATH}-%d" % idx))
     return out
